@@ -150,8 +150,11 @@ def check_case(case):
                     want = h
                 else:
                     P = secp.mul(step['secret'], secp.G)
-                    pk = secp.ser_pub(P, kind == 'pubkey-c')
-                    script = S.push_enc(pk) + b'\xac'
+                    pk = secp.ser_pub(P, kind.startswith('pubkey-c'))
+                    # (the two documented variants combine: the key may sit behind a non-canonical push as well)
+                    enc = step.get('push', 'min')
+                    script = {'min': S.push_enc(pk), 'pd1': b'\x4c' + bytes([len(pk)]) + pk, 'pd2': b'\x4d' + len(pk).to_bytes(2, 'little') + pk,
+                              'pd4': b'\x4e' + len(pk).to_bytes(4, 'little') + pk}[enc] + b'\xac'
                     want = H.h160(pk)
                 a = libx.call('from_scriptPubKey-variant', CBitcoinAddress.from_scriptPubKey, CScript(script))[1]
                 if type(a) is not P2PKHBitcoinAddress or bytes(a) != want or str(a) != ref_text(chain, 'p2pkh', want):
@@ -278,8 +281,13 @@ def _is_bare_pubkey(sc):
 
 # ------------------------------------------------------------------ strategies
 chains = st.sampled_from(libx.CHAINS)
-h20 = st.binary(min_size=20, max_size=20)
-h32 = st.binary(min_size=32, max_size=32)
+# hashes incl. those with long runs of leading zero bytes (their Base58 text is SHORTER than usual - 26 characters and fewer on
+# mainnet), all-zero, all-ff, and with newline / NUL bytes inside
+_special20 = [bytes(20), b'\xff' * 20, bytes(19) + b'\x01', bytes(19) + b'\x08', bytes(18) + b'\x01\x00', bytes(10) + b'\x01' * 10, b'\n' * 20,
+              bytes(19) + b'\xff', bytes(17) + b'\x01\x02\x03']
+h20 = st.one_of(st.binary(min_size=20, max_size=20), st.binary(min_size=20, max_size=20), st.sampled_from(_special20),
+                st.integers(1, 19).flatmap(lambda z: st.binary(min_size=20 - z, max_size=20 - z).map(lambda b, z=z: bytes(z) + b)))
+h32 = st.one_of(st.binary(min_size=32, max_size=32), st.sampled_from([bytes(32), b'\xff' * 32, bytes(31) + b'\x01', b'\n' * 32]))
 
 
 @st.composite
@@ -291,7 +299,8 @@ def s_step(draw):
         return {'chain': chain, 'act': 'rt', 'template': t, 'payload': draw(h32 if t == 'p2wsh' else h20).hex()}
     if k == 4:
         v = draw(st.sampled_from(['pd1', 'pd2', 'pd4', 'pubkey-c', 'pubkey-u']))
-        return {'chain': chain, 'act': 'variant', 'variant': v, 'payload': draw(h20).hex(), 'secret': draw(st.integers(1, 2 ** 32))}
+        return {'chain': chain, 'act': 'variant', 'variant': v, 'payload': draw(h20).hex(), 'secret': draw(st.integers(1, 2 ** 32)),
+                'push': draw(st.sampled_from(['min', 'min', 'pd1', 'pd2', 'pd4']))}
     if k in (5, 6):      # a valid address of another chain
         other = draw(chains)
         t = draw(st.sampled_from(['p2pkh', 'p2sh', 'p2wpkh', 'p2wsh']))
